@@ -91,25 +91,23 @@ Theorem extract_tree_without_taxa_refines :
 Proof. exact gen_extract_tree_without_taxa. Qed.
 Print Assumptions extract_tree_without_taxa_refines.
 
-(* taxon.label is the parameter taxon_label of the generated code; ns is the model's namespace *)
+(* the label wrappers resolve the labels through the namespace (get_taxa = TaxonNamespace.get_taxa(labels=...),
+   C08Model.get_taxa ns cs for the model: extract_tree_with(out)_taxa_labels_ns ns cs labels is
+   extract_tree_with(out)_taxa (get_taxa ns cs labels) by definition), then filter on taxon identity *)
 Theorem extract_tree_with_taxa_labels_refines :
   forall (h0 : heap) (t : tree) (on sup : bool) (xs0 : list (Z * Z)) (xe0 : list (Z * option Z)),
     rep h0 None t -> t_id t = seed h0 -> NoDup (ids t) -> (forall i, In i (ids t) -> i < next h0) ->
-    forall (ns : C08Model.nspace) (taxon_label : Z -> Z),
-      (forall nd a, In nd (ids t) -> taxon h0 nd = Some a -> C08Model.tax_label ns a = Some (taxon_label a)) ->
-      forall labels : list Z,
-        xrel on h0 (Tree_extract_tree_with_taxa_labels HX taxon_label labels on sup (mkX h0 xs0 xe0))
-             (C08Model.extract_tree_with_taxa_labels ns labels sup t).
-Proof. exact gen_extract_tree_with_taxa_labels. Qed.
+    forall (ns : C08Model.nspace) (cs : bool) (labels : list Z),
+      xrel on h0 (Tree_extract_tree_with_taxa_labels HX (C08Model.get_taxa ns cs) labels on sup (mkX h0 xs0 xe0))
+           (C08Model.extract_tree_with_taxa_labels_ns ns cs labels sup t).
+Proof. exact (fun h0 t on sup xs0 xe0 R S N L ns cs => gen_extract_tree_with_taxa_labels h0 t on sup xs0 xe0 R S N L (C08Model.get_taxa ns cs)). Qed.
 Print Assumptions extract_tree_with_taxa_labels_refines.
 
 Theorem extract_tree_without_taxa_labels_refines :
   forall (h0 : heap) (t : tree) (on sup : bool) (xs0 : list (Z * Z)) (xe0 : list (Z * option Z)),
     rep h0 None t -> t_id t = seed h0 -> NoDup (ids t) -> (forall i, In i (ids t) -> i < next h0) ->
-    forall (ns : C08Model.nspace) (taxon_label : Z -> Z),
-      (forall nd a, In nd (ids t) -> taxon h0 nd = Some a -> C08Model.tax_label ns a = Some (taxon_label a)) ->
-      forall labels : list Z,
-        xrel on h0 (Tree_extract_tree_without_taxa_labels HX taxon_label labels on sup (mkX h0 xs0 xe0))
-             (C08Model.extract_tree_without_taxa_labels ns labels sup t).
-Proof. exact gen_extract_tree_without_taxa_labels. Qed.
+    forall (ns : C08Model.nspace) (cs : bool) (labels : list Z),
+      xrel on h0 (Tree_extract_tree_without_taxa_labels HX (C08Model.get_taxa ns cs) labels on sup (mkX h0 xs0 xe0))
+           (C08Model.extract_tree_without_taxa_labels_ns ns cs labels sup t).
+Proof. exact (fun h0 t on sup xs0 xe0 R S N L ns cs => gen_extract_tree_without_taxa_labels h0 t on sup xs0 xe0 R S N L (C08Model.get_taxa ns cs)). Qed.
 Print Assumptions extract_tree_without_taxa_labels_refines.
